@@ -103,6 +103,7 @@ def check(repo: Repo) -> Result:
     global_writers(repo, res)
     readonly_default(repo, res)
     registry_selection(repo, res)
+    parsed_in_own_registry(repo, res)
     namespaces(repo, res)
     from rules import c07
     from rules.common import share
@@ -378,6 +379,39 @@ def readonly_default(repo, res):
     res.check(not bad, "no-unbound-bypass", "unyt/*.py", "UnitRegistry.modify/remove are never called unbound (which would bypass the refusal)", found=bad, rid=r3)
 
 
+def parsed_in_own_registry(repo, res):
+    """C13-R8: a method of unyt_array that reads a unit argument in the data's own registry
+    (`x = Unit(<parameter>, registry=self.units.registry)`) uses the parsed unit from then on.  Handing the raw
+    argument (possibly a string) to a later conversion of an intermediate object lets *that* object's registry read the
+    text - for intermediate results bound to the default registry (a physical constant on the left of a product) a symbol
+    the data's registry adds or re-defines is unknown or has the default definition."""
+    r8 = res.rule("C13-R8", "a unit argument parsed in the data's own registry is used in its parsed form afterwards: the raw argument is not handed to later conversions", floor=2)
+    arr = repo.mod(ARR)
+    n = 0
+    for q, fns in arr.funcs.items():
+        if not q.startswith("unyt_array."):
+            continue
+        for f in fns:
+            for st in walk_no_nested(f.node):
+                if not (isinstance(st, ast.Assign) and isinstance(st.value, ast.Call) and norm(st.value.func) == "Unit" and st.value.args and isinstance(st.value.args[0], ast.Name) and st.value.args[0].id in f.params and len(st.targets) == 1 and isinstance(st.targets[0], ast.Name)):
+                    continue
+                reg_ = kwarg_of(st.value, "registry")
+                if reg_ is None or not norm(reg_).startswith("self."):
+                    continue
+                raw, parsed = st.value.args[0].id, st.targets[0].id
+                n += 1
+                res.fn(f)
+                later = []
+                for c in walk_no_nested(f.node):
+                    if isinstance(c, ast.Call) and getattr(c, "lineno", 0) > st.lineno and c is not st.value:
+                        if isinstance(c.func, ast.Attribute) and c.func.attr in ("in_units", "to", "convert_to_units", "to_value", "in_base", "to_equivalent", "convert_to_equivalent", "get_conversion_factor"):
+                            if any(isinstance(a, ast.Name) and a.id == raw for a in list(c.args) + [k.value for k in c.keywords]):
+                                later.append(norm(c))
+                res.check(not later, f"{q}:{raw}->{parsed}", f.where(st), f"{q} parses {raw!r} in the array's own registry as {parsed!r} but later hands the raw {raw!r} to a conversion: a unit string is then read by the registry of the intermediate result (the default registry when a constant was on the left), not by the data's registry", f"{parsed} in every later conversion", later[:2], rid=r8)
+    if n < 2:
+        raise AnalysisError(f"{ARR}: fewer than two `Unit(<parameter>, registry=self...)` parsing sites found")
+
+
 def registry_selection(repo, res):
     r4 = res.rule("C13-R4", "mixed-registry operations use an operand's registry, never mutate a registry and never re-point an existing Unit", floor=4)
     arr = repo.mod(ARR)
@@ -509,6 +543,7 @@ MUTANTS = [
     Mutant("hdf5-shares-default", ARR, "unyt_array.from_hdf5", "unit_lut = default_unit_symbol_lut.copy()", "unit_lut = default_unit_symbol_lut", ("C13-R1", "C13-R2")),
     Mutant("array-deepcopy-shares-registry", ARR, "unyt_array.__deepcopy__", "copy.deepcopy(self.units)", "self.units.copy()", ("C13-R1",), count=2),
     Mutant("class-level-unit-cache", REG, None, "    _unit_system_id = None\n", "    _unit_system_id = None\n    _unit_object_cache = {}\n", ("C13-R1",)),
+    Mutant("to-equivalent-reparses-raw-unit", ARR, "unyt_array.to_equivalent", "return new_arr.in_units(conv_unit)", "return new_arr.in_units(unit)", ("C13-R8",)),
     Mutant("deepcopy-shares", REG, "UnitRegistry.__deepcopy__", "lut = dict(self.lut)", "lut = self.lut", ("C13-R1",)),
     Mutant("init-aliases-default", REG, "UnitRegistry.__init__", "            self.lut = {}\n", "            self.lut = default_unit_symbol_lut\n", ("C13-R1", "C13-R2")),
     Mutant("init-shared-cache", REG, "UnitRegistry.__init__", "        self._unit_object_cache = {}\n", "        self._unit_object_cache = _shared_cache\n", ("C13-R1",)),
